@@ -120,7 +120,7 @@ def run(c, ctx, real_parse):
 def gen_srcunit(rng):
     return dict(stage='srcunit', host_k=rng.choice([2.0, 5.0, 0.5]), remote_k=rng.choice([1.0, 3.0, 20.0]), w=rng.choice([3.0, 4.0, 7.0]),
                 host=rng.choice(['main-text', 'main-text', 'base-environment', 'no-custom-unit', 'other-name', 'unit-after-source']),
-                count=rng.choice([4, 12]))
+                count=rng.choice([4, 12]), api=rng.random() < 0.3)
 
 
 def run_srcunit(c, ctx, real_parse):
@@ -152,7 +152,24 @@ def run_srcunit(c, ctx, real_parse):
             if kind != 'ok':
                 devs.append(dev('sourced-custom-unit:base-text-rejected', dict(exc=repr(base)[:200])))
                 return outcome(classes=classes, nontrivial=True, fp='srcunit ' + repr(c), dev=devs, monitors=mon, sample=dict(main=text, remote=remote))
-        kind, env = real_parse(ctx, text, base=base, tag='su')
+        if c.get('api') and c['host'] in ('main-text', 'no-custom-unit', 'other-name'):
+            # the same program with the source (and the host's unit) registered through the API calls add_unit / add_source
+            classes.append('sourced-file-custom-unit:registered-through-the-api')
+            rest = [l for l in main if not l.startswith('$')]
+            from vt.props import c17 as C17
+
+            def go():
+                pp = ctx['DIP'](name=C17.unique(ctx, 'sua'))
+                ctx['keep'].append(pp)
+                if unit_line:
+                    pp.add_unit(uname, hk, 'm')
+                pp.add_source('parts', path)
+                pp.add_string('\n'.join(rest) + '\n')
+                return pp.parse()
+            kind, env, _steps = ctx['guard'].run(go)
+            text = '# add_unit(%r, %r, "m"); add_source("parts", path)\n' % (uname, hk) + '\n'.join(rest) + '\n'
+        else:
+            kind, env = real_parse(ctx, text, base=base, tag='su')
         sample = dict(main=text, remote='\n'.join(remote), base='$unit len = %r m' % hk if base is not None else None)
         if kind != 'ok':
             devs.append(dev('sourced-custom-unit:valid-program-rejected(host-%s)' % c['host'], dict(sample, exc=repr(env)[:200])))
